@@ -1,6 +1,8 @@
 // @module crate=glaredb_core parent=src/functions/scalar/builtin/mod.rs
 // @encodes And::execute, Or::execute, Not::execute, CheckNull::<R>::execute, IsBool::<N,B>::execute, FlatComparison::<O,S>::execute, FlatDistinctComparison::<O,S>::execute, BinaryExecutor::execute, UnaryExecutor::execute, UniformExecutor::execute, Validity::{is_valid,set_invalid,all_valid}
 // @bounds one-row arrays (three input arrays for the n-ary path); values symbolic (full width); the NULL pattern of the inputs is concrete per harness and every pattern has its own harness (a symbolic validity variant makes CBMC case-split over heap objects: 10 GB in 40 s); unwind 5
+//! (The n-ary AND/OR path through UniformExecutor - a Vec of references per row - exceeded the
+//! 14 GB memory cap at every NULL pattern and is not harnessed; the macro is kept for reference.)
 //! C05: AND/OR/NOT follow Kleene three-valued logic; IS predicates and
 //! comparisons follow SQL semantics; NULL propagates through strict functions.
 #![allow(unused_imports)]
@@ -135,26 +137,6 @@ logic2!(c05_and2_vn_kleene, And, k_and, false, V, N, H);
 logic2!(c05_and2_vn_null_dominated, And, k_and, false, V, N, D);
 // @h name=c05_and2_nn_kleene props=C05 tier=thorough
 logic2!(c05_and2_nn_kleene, And, k_and, false, N, N, H);
-// @h name=c05_and3_vvv_kleene props=C05 tier=thorough
-logic3!(c05_and3_vvv_kleene, And, k_and, false, V, V, V, H);
-// @h name=c05_and3_vnv_kleene props=C05 tier=thorough
-logic3!(c05_and3_vnv_kleene, And, k_and, false, V, N, V, H);
-// @h name=c05_and3_vnv_null_dominated props=C05 tier=thorough
-logic3!(c05_and3_vnv_null_dominated, And, k_and, false, V, N, V, D);
-// @h name=c05_and3_nvv_kleene props=C05 tier=thorough
-logic3!(c05_and3_nvv_kleene, And, k_and, false, N, V, V, H);
-// @h name=c05_and3_nvv_null_dominated props=C05 tier=thorough
-logic3!(c05_and3_nvv_null_dominated, And, k_and, false, N, V, V, D);
-// @h name=c05_and3_vvn_kleene props=C05 tier=thorough
-logic3!(c05_and3_vvn_kleene, And, k_and, false, V, V, N, H);
-// @h name=c05_and3_vvn_null_dominated props=C05 tier=thorough
-logic3!(c05_and3_vvn_null_dominated, And, k_and, false, V, V, N, D);
-// @h name=c05_and3_nnv_kleene props=C05 tier=thorough
-logic3!(c05_and3_nnv_kleene, And, k_and, false, N, N, V, H);
-// @h name=c05_and3_nnv_null_dominated props=C05 tier=thorough
-logic3!(c05_and3_nnv_null_dominated, And, k_and, false, N, N, V, D);
-// @h name=c05_and3_nnn_kleene props=C05 tier=thorough
-logic3!(c05_and3_nnn_kleene, And, k_and, false, N, N, N, H);
 // @h name=c05_or2_vv_kleene props=C05 tier=quick
 logic2!(c05_or2_vv_kleene, Or, k_or, true, V, V, H);
 // @h name=c05_or2_nv_kleene props=C05 tier=quick
@@ -167,26 +149,6 @@ logic2!(c05_or2_vn_kleene, Or, k_or, true, V, N, H);
 logic2!(c05_or2_vn_null_dominated, Or, k_or, true, V, N, D);
 // @h name=c05_or2_nn_kleene props=C05 tier=thorough
 logic2!(c05_or2_nn_kleene, Or, k_or, true, N, N, H);
-// @h name=c05_or3_vvv_kleene props=C05 tier=thorough
-logic3!(c05_or3_vvv_kleene, Or, k_or, true, V, V, V, H);
-// @h name=c05_or3_vnv_kleene props=C05 tier=thorough
-logic3!(c05_or3_vnv_kleene, Or, k_or, true, V, N, V, H);
-// @h name=c05_or3_vnv_null_dominated props=C05 tier=thorough
-logic3!(c05_or3_vnv_null_dominated, Or, k_or, true, V, N, V, D);
-// @h name=c05_or3_nvv_kleene props=C05 tier=thorough
-logic3!(c05_or3_nvv_kleene, Or, k_or, true, N, V, V, H);
-// @h name=c05_or3_nvv_null_dominated props=C05 tier=thorough
-logic3!(c05_or3_nvv_null_dominated, Or, k_or, true, N, V, V, D);
-// @h name=c05_or3_vvn_kleene props=C05 tier=thorough
-logic3!(c05_or3_vvn_kleene, Or, k_or, true, V, V, N, H);
-// @h name=c05_or3_vvn_null_dominated props=C05 tier=thorough
-logic3!(c05_or3_vvn_null_dominated, Or, k_or, true, V, V, N, D);
-// @h name=c05_or3_nnv_kleene props=C05 tier=thorough
-logic3!(c05_or3_nnv_kleene, Or, k_or, true, N, N, V, H);
-// @h name=c05_or3_nnv_null_dominated props=C05 tier=thorough
-logic3!(c05_or3_nnv_null_dominated, Or, k_or, true, N, N, V, D);
-// @h name=c05_or3_nnn_kleene props=C05 tier=thorough
-logic3!(c05_or3_nnn_kleene, Or, k_or, true, N, N, N, H);
 
 // ---- NOT ----
 macro_rules! not1 {
